@@ -71,6 +71,7 @@ func c20Run(t *tr.Writer, id int, c c20Case) {
 		}
 	}
 	client.Use(cb, core.IOHandler(scripted))
+	Watch(id, tr.Rec{"threshold": c.Threshold}, c)
 	t.Reset(id, tr.Rec{"threshold": c.Threshold, "mock": c.Mock, "recovery": c.Recovery, "input": c})
 	for _, op := range c.Ops {
 		if op == "wait" {
